@@ -2,13 +2,17 @@
 # step keys: test, kind (rapid|plain|fuzz), quick=(checks_per_shard, shards), thorough=(...), race, timeout, env, tier
 
 PLAN = {
-    "C01": [dict(test="TestC01", quick=(2500, 16), thorough=(60000, 16), timeout_thorough=7200)],
+    "C01": [
+        dict(test="TestC01", quick=(2500, 16), thorough=(40000, 16), timeout_thorough=7200),
+        # drift guard for the verif-tagged step functions (a failure here is an infrastructure failure: exit 2)
+        dict(test="TestHookConformance", quick=(25, 2), thorough=(400, 4), timeout=1500, timeout_thorough=3600),
+    ],
     "C02": [
         dict(test="TestC02", quick=(25000, 8), thorough=(600000, 8), timeout_thorough=7200),
         dict(test="FuzzC02", kind="fuzz", fuzztime=240),
     ],
-    "C03": [dict(test="TestC03", quick=(2500, 16), thorough=(60000, 16), timeout_thorough=7200)],
-    "C04": [dict(test="TestC04", quick=(2500, 16), thorough=(60000, 16), timeout_thorough=7200)],
+    "C03": [dict(test="TestC03", quick=(2500, 16), thorough=(40000, 16), timeout_thorough=7200)],
+    "C04": [dict(test="TestC04", quick=(2500, 16), thorough=(40000, 16), timeout_thorough=7200)],
     "C05": [dict(test="TestC05", quick=(1500, 16), thorough=(30000, 16), timeout_thorough=7200)],
     "C07": [
         dict(test="TestC07N", quick=(6000, 8), thorough=(150000, 8), timeout_thorough=7200),
@@ -22,22 +26,22 @@ PLAN = {
         dict(test="TestC09N", quick=(5000, 8), thorough=(100000, 8), timeout_thorough=7200),
         dict(test="TestC09S", quick=(2000, 8), thorough=(40000, 8), timeout_thorough=7200),
     ],
-    "C11": [dict(test="TestC11", quick=(2500, 16), thorough=(50000, 16), timeout_thorough=7200)],
-    "C10": [dict(test="TestC10", quick=(2500, 16), thorough=(60000, 16), timeout_thorough=7200)],
+    "C11": [dict(test="TestC11", quick=(2500, 16), thorough=(40000, 16), timeout_thorough=7200)],
+    "C10": [dict(test="TestC10", quick=(2500, 16), thorough=(40000, 16), timeout_thorough=7200)],
     "C12": [
         dict(test="TestC12N", quick=(4000, 8), thorough=(150000, 8), timeout_thorough=7200),
         dict(test="TestC12R", quick=(100, 8), thorough=(1500, 8), race=True, timeout=1500, timeout_thorough=7200),
         dict(test="FuzzC12", kind="fuzz", fuzztime=300),
     ],
     "C13": [
-        dict(test="TestC13R", quick=(120, 10), thorough=(2500, 8), race=True, timeout=1500, timeout_thorough=7200),
+        dict(test="TestC13R", quick=(120, 10), thorough=(1500, 8), race=True, timeout=1500, timeout_thorough=7200),
         dict(test="TestC13S", quick=(2000, 6), thorough=(40000, 8), timeout_thorough=7200),
     ],
-    "C14": [dict(test="TestC14R", quick=(150, 16), thorough=(2500, 16), race=True, timeout=1500, timeout_thorough=7200)],
+    "C14": [dict(test="TestC14R", quick=(150, 16), thorough=(1500, 16), race=True, timeout=1500, timeout_thorough=7200)],
     "C15": [
         dict(test="TestC15Exhaustive", kind="plain", quick=(0, 1), thorough=(0, 1), timeout_thorough=3600),
         dict(test="TestC15Registry", quick=(20000, 3), thorough=(400000, 4)),
-        dict(test="TestC15R", quick=(120, 12), thorough=(2500, 12), race=True, timeout=1500, timeout_thorough=7200),
+        dict(test="TestC15R", quick=(120, 12), thorough=(1500, 12), race=True, timeout=1500, timeout_thorough=7200),
     ],
     "C17": [
         dict(test="TestC17Exhaustive", kind="plain", quick=(0, 1), thorough=(0, 1), timeout_thorough=3600),
@@ -53,7 +57,7 @@ PLAN = {
         dict(test="TestC20", quick=(6000, 16), thorough=(200000, 16), timeout_thorough=7200),
         dict(test="FuzzC20", kind="fuzz", fuzztime=180),
     ],
-    "C16": [dict(test="TestC16R", quick=(120, 16), thorough=(2000, 16), race=True, timeout=1500, timeout_thorough=7200)],
+    "C16": [dict(test="TestC16R", quick=(120, 16), thorough=(1500, 16), race=True, timeout=1500, timeout_thorough=7200)],
     "C18": [
         dict(test="TestC18Dense", kind="plain", quick=(0, 1), thorough=(0, 1)),
         dict(test="TestC18Leader", quick=(30000, 4), thorough=(1500000, 8)),
